@@ -1,6 +1,7 @@
 (* C12 — loading any model text yields a usable model or an error: property theorems only.  Proofs: C12/Proofs.v.
-   PARTIAL: the model (C12/Model.v) is the shape of a Definitions value — clause / entry counts of decision tables and the
-   requirement / type-reference graph — with the outcomes Ok | Err | Crash site | Diverge.  The XML parser (roxmltree), the
+   PARTIAL: the model (C12/Model.v) is the shape of a Definitions value — decision tables (clauses, entries, hit policy, which rules match)
+   with every vector index of decision_table.rs as a bounds test, and the requirement / type-reference graph — with the outcomes
+   Ok | Err | Panic site | Diverge.  The XML parser (roxmltree), the
    real stack size, FEEL parsing of the texts inside the model and the evaluation of expressions are not in it; they are covered by
    the fault-injection run of props/c12.py.  `rank` = any numbering of the nodes that decreases along every requirement between
    nodes (it exists iff the graph is acyclic: C12_ranked_no_cycle / C12_acyclic_has_numbering); `fuel` = number of stack frames available.
@@ -9,13 +10,58 @@ From Coq Require Import List Arith Bool PeanoNat.
 From DV Require Import C12.Model C12.Proofs C12.DfsProofs.
 Import ListNotations.
 
-(* ---- decision tables: any numbers of clauses and entries *)
+(* ---- decision tables (C12/Model.v transliterates parse_decision_table and the evaluation closure of builders/decision_table.rs over an abstract
+        table: hit policy, number of input clauses, per output clause name / output values / default entry, per rule the number of input entries
+        and the output entry values; which rules match is an argument).  Every vector index of the Rust code (rule.input_entries[i],
+        rule.output_entries[i], component_names[i], default_output_values[0], matching_rules[0], output_entry_values[0]) is a bounds test with its
+        own Panic / EvalPanic arm in the model; the theorems say those arms are unreachable in the current code, and reachable in the code before
+        the repairs (..._orig = pinned commit f2b7a1b, ..._orig2 = after 012211c and before d6b0858). *)
+(* building never panics: the two entry loops index below the counts compared just before *)
 Theorem C12_table_build_total : forall t, table_build t = Ok \/ table_build t = Err.
 Proof. exact table_build_total. Qed.
 Theorem C12_table_build_ok_iff : forall t, table_build t = Ok <-> Forall (fun r => in_entries r = in_clauses t /\ out_entries r = out_clauses t) (rules t).
 Proof. exact table_build_ok_iff. Qed.
-Theorem C12_table_eval_total : forall t, table_eval t = Ok.
+(* evaluation never panics: for every table (built or not; a table that does not build is never evaluated), every hit policy, every pattern of
+   matching rules.  No hypothesis `table_build t = Ok` is needed because each index of the current code is guarded where it stands. *)
+Theorem C12_table_eval_total : forall t matches site, table_eval t matches <> EvalPanic site.
 Proof. exact table_eval_total. Qed.
+Theorem C12_table_eval_value : forall t matches, exists v, table_eval t matches = Got v.
+Proof. exact table_eval_got. Qed.
+(* the code between 012211c and d6b0858 panicked EXACTLY on: COLLECT with SUM / MIN / MAX, at most one named output clause,
+   some matching rule without output entry (a table that builds has such a rule iff it has no output clause and a rule matches) *)
+Theorem C12_table_eval_orig2_panic_iff : forall t matches,
+  (exists site, table_eval_orig2 t matches = EvalPanic site) <->
+  is_aggregate (policy t) = true /\ names t <= 1 /\ Exists (fun r => outv r = []) (matching_rules (rules t) matches).
+Proof. exact table_eval_orig2_panic_iff. Qed.
+Theorem C12_table_build_orig_refuted :
+  table_build_orig t_short_rule = Panic site_input_entry /\ table_build t_short_rule = Err /\
+  table_build_orig t_short_rule_out = Panic site_output_entry /\ table_build t_short_rule_out = Err.
+Proof. exact table_build_orig_refuted. Qed.
+(* tables that BUILD and whose evaluation panicked: pinned commit (hit policy FIRST, no output clause); after 012211c still COLLECT SUM / MIN / MAX *)
+Theorem C12_table_eval_orig_refuted :
+  table_build t_no_output = Ok /\ table_eval_orig t_no_output [true] = EvalPanic site_output_value0 /\ table_eval t_no_output [true] = Got (One RNull) /\
+  (forall a, table_build (t_no_output_agg a) = Ok) /\
+  table_eval_orig2 (t_no_output_agg ASum) [true] = EvalPanic site_aggregate_value0 /\
+  table_eval_orig2 (t_no_output_agg AMin) [true] = EvalPanic site_aggregate_value0 /\
+  table_eval_orig2 (t_no_output_agg AMax) [true] = EvalPanic site_aggregate_value0 /\
+  (forall a, table_eval (t_no_output_agg a) [false] = Got (One RNull)) /\
+  table_eval (t_no_output_agg ASum) [true] = Got (One RNull) /\ table_eval (t_no_output_agg AMin) [true] = Got (One RNull) /\
+  table_eval (t_no_output_agg AMax) [true] = Got (One RNull).
+Proof. exact table_eval_orig_refuted. Qed.
+Example C12_table_examples :
+  (forall p, table_build (t_sample p) = Ok) /\
+  table_eval (t_sample Priority) [true; false; true] = Got (One (RCtx [Some 3; Some 7])) /\
+  table_eval (t_sample OutputOrder) [true; true; true] = Got (Many [RCtx [Some 3; Some 7]; RCtx [Some 2; Some 6]; RCtx [Some 1; Some 5]]) /\
+  table_eval (t_sample RuleOrder) [true; true; false] = Got (Many [RCtx [Some 1; Some 5]; RCtx [Some 2; Some 6]]) /\
+  table_eval (t_sample Unique) [true; true; false] = Got (One RNull) /\
+  table_eval (t_sample Unique) [false; false; false] = Got (One (RCtx [None; Some 4])) /\
+  table_eval (t_sample (Collect ACount)) [true; true; false] = Got (One (RNum 2)) /\
+  table_eval (t_sample (Collect ASum)) [true; true; true] = Got (One RNull) /\
+  table_eval (mk_table (Collect ASum) 1 [o_plain] [mk_rule 1 [4]; mk_rule 1 [5]]) [true; true] = Got (One (RNum 9)) /\
+  table_eval (mk_table (Collect AMin) 1 [o_plain] [mk_rule 1 [4]; mk_rule 1 [5]]) [true; true] = Got (One (RNum 4)) /\
+  table_eval (mk_table Any 1 [o_plain] [mk_rule 1 [4]; mk_rule 1 [5]]) [true; true] = Got (One RNull) /\
+  table_eval (mk_table Any 1 [o_plain] [mk_rule 1 [4]; mk_rule 1 [4]]) [true; true] = Got (One (RNum 4)).
+Proof. exact table_examples. Qed.
 
 (* ---- the whole build / evaluation: a model or an error, never a crash, for EVERY model (no numbering given: a model that passes the
         check has one, see C12_passed_check_numbering), with a stack of more frames than the graph has rows; depth bound = rank + 1 frames *)
@@ -27,11 +73,13 @@ Proof. exact total. Qed.
 (* a model with a cycle is rejected before any recursion: for every fuel, 0 included *)
 Theorem C12_cyclic_rejected : forall d, (exists n, on_cycle (deps d) n) -> forall fuel, build fuel d = Err.
 Proof. exact cyclic_rejected. Qed.
-Theorem C12_built_model_evaluates : forall fuel d n, length (deps d) < fuel -> build fuel d = Ok -> evaluate fuel d n = Ok.
+(* `evaluate` = the recursion over the requirements of the invocable (depth) and the evaluation of every table of the model under the match
+   patterns ms (one per table; they depend on the input context): no panic, no unbounded recursion.  FEEL values are not in this model. *)
+Theorem C12_built_model_evaluates : forall fuel d ms n, length (deps d) < fuel -> build fuel d = Ok -> evaluate fuel d ms n = Ok.
 Proof. exact built_evaluates. Qed.
-Theorem C12_evaluate_total : forall fuel d (rank : nat -> nat) n,
+Theorem C12_evaluate_total : forall fuel d (rank : nat -> nat) ms n,
   (forall n ts m, targets (deps d) n = Some ts -> In m ts -> targets (deps d) m <> None -> rank m < rank n) ->
-  rank n < fuel -> evaluate fuel d n = Ok.
+  rank n < fuel -> evaluate fuel d ms n = Ok.
 Proof. exact evaluate_total. Qed.
 Theorem C12_depth_bound : forall g (rank : nat -> nat),
   (forall n ts m, targets g n = Some ts -> In m ts -> targets g m <> None -> rank m < rank n) ->
@@ -72,26 +120,33 @@ Example C12_dfs_nonvacuous :
   has_cycle g_ring3_tail = Cycle /\ on_cycle g_ring3_tail 0 /\ build 0 (mk_defs [] g_ring3_tail) = Err /\
   has_cycle g_diamond = NoCycle diamond_colours /\
   map (finish_rank diamond_colours) [0; 1; 2; 3; 5] = [4; 2; 3; 1; 0] /\
-  build 5 (mk_defs [mk_table 1 1 [mk_rule 1 1]] g_diamond) = Ok /\
+  build 5 (mk_defs [mk_table First 1 [o_plain] [mk_rule 1 [1]]] g_diamond) = Ok /\
   has_cycle [(4, [4])] = Cycle /\ has_cycle [(0, [1]); (1, []); (0, [0])] = NoCycle [(0, true); (1, true); (1, false); (0, false)].
 Proof. exact examples. Qed.
 Example C12_nonvacuous :
-  build 10 (mk_defs [mk_table 2 1 [mk_rule 2 1; mk_rule 2 1]] [(0, [1; 2]); (1, [2]); (2, [7])]) = Ok /\
-  evaluate 10 (mk_defs [mk_table 2 1 [mk_rule 2 1]] [(0, [1; 2]); (1, [2]); (2, [7])]) 0 = Ok /\
+  build 10 (mk_defs [mk_table (Collect ASum) 2 [o_plain] [mk_rule 2 [1]; mk_rule 2 [2]]] [(0, [1; 2]); (1, [2]); (2, [7])]) = Ok /\
+  evaluate 10 (mk_defs [mk_table (Collect ASum) 2 [o_plain] [mk_rule 2 [1]; mk_rule 2 [2]]] [(0, [1; 2]); (1, [2]); (2, [7])]) [[true; true]] 0 = Ok /\
+  table_eval (mk_table (Collect ASum) 2 [o_plain] [mk_rule 2 [1]; mk_rule 2 [2]]) [true; true] = Got (One (RNum 3)) /\
   length (graphs_upto 1 ++ graphs_upto 2 ++ graphs_upto 3) = 4164 /\
   cyclic_ref [(0, [1]); (1, [2]); (2, [0])] = true /\ has_cycle [(0, [1]); (1, [2]); (2, [0])] = Cycle.
 Proof. repeat split; vm_compute; reflexivity. Qed.
 
-(* ---- the pinned commit: the four confirmed defects *)
+(* ---- the confirmed defects of the pinned commit (short rule, no output clause, cyclic requirements) and the one left by 012211c (aggregators) *)
 Theorem C12_table_build_orig_crash_iff : forall t,
-  (exists s, table_build_orig t = Crash s) <-> Exists (fun r => in_entries r < in_clauses t \/ out_entries r < out_clauses t) (rules t).
+  (exists s, table_build_orig t = Panic s) <-> Exists (fun r => in_entries r < in_clauses t \/ out_entries r < out_clauses t) (rules t).
 Proof. exact table_build_orig_crash_iff. Qed.
-Theorem C12_orig_refuted_short_rule : build_orig 100 (mk_defs [t_short_rule] []) = Crash site_input_entry /\ build 100 (mk_defs [t_short_rule] []) = Err.
+Theorem C12_orig_refuted_short_rule : build_orig 100 (mk_defs [t_short_rule] []) = Panic site_input_entry /\ build 100 (mk_defs [t_short_rule] []) = Err.
 Proof. exact orig_refuted_short_rule. Qed.
-Theorem C12_orig_refuted_no_output : build_orig 100 (mk_defs [t_no_output] [(0, [])]) = Ok /\ evaluate_orig 100 (mk_defs [t_no_output] [(0, [])]) 0 = Crash site_output_value0
-  /\ evaluate 100 (mk_defs [t_no_output] [(0, [])]) 0 = Ok.
+Theorem C12_orig_refuted_no_output : build_orig 100 (mk_defs [t_no_output] [(0, [])]) = Ok /\ evaluate_orig 100 (mk_defs [t_no_output] [(0, [])]) [[true]] 0 = Panic site_output_value0
+  /\ evaluate 100 (mk_defs [t_no_output] [(0, [])]) [[true]] 0 = Ok.
 Proof. exact orig_refuted_no_output. Qed.
-Theorem C12_orig_refuted_cycle : on_cycle g_two_cycle 0 /\ (forall fuel, build_orig fuel (mk_defs [] g_two_cycle) = Diverge) /\ (forall fuel, evaluate_orig fuel (mk_defs [] g_two_cycle) 0 = Diverge)
+(* C12_built_model_evaluates was FALSE of the code before d6b0858: the model builds, its evaluation panics *)
+Theorem C12_orig2_refuted_no_output_aggregate :
+  build 100 (mk_defs [t_no_output_agg ASum] [(0, [])]) = Ok /\
+  evaluate_orig2 100 (mk_defs [t_no_output_agg ASum] [(0, [])]) [[true]] 0 = Panic site_aggregate_value0 /\
+  evaluate 100 (mk_defs [t_no_output_agg ASum] [(0, [])]) [[true]] 0 = Ok.
+Proof. exact orig2_refuted_no_output_aggregate. Qed.
+Theorem C12_orig_refuted_cycle : on_cycle g_two_cycle 0 /\ (forall fuel, build_orig fuel (mk_defs [] g_two_cycle) = Diverge) /\ (forall fuel ms, evaluate_orig fuel (mk_defs [] g_two_cycle) ms 0 = Diverge)
   /\ (forall fuel, build fuel (mk_defs [] g_two_cycle) = Err).
 Proof. exact orig_refuted_cycle. Qed.
 (* ---- item definitions are trees: the collection of type references reaches a reference at ANY nesting depth (and nothing else), so such a
@@ -115,6 +170,12 @@ Proof. exact nested_cycle_found_upto_6. Qed.
 Print Assumptions C12_table_build_total.
 Print Assumptions C12_table_build_ok_iff.
 Print Assumptions C12_table_eval_total.
+Print Assumptions C12_table_eval_value.
+Print Assumptions C12_table_eval_orig2_panic_iff.
+Print Assumptions C12_table_build_orig_refuted.
+Print Assumptions C12_table_eval_orig_refuted.
+Print Assumptions C12_table_examples.
+Print Assumptions C12_orig2_refuted_no_output_aggregate.
 Print Assumptions C12_total.
 Print Assumptions C12_cyclic_rejected.
 Print Assumptions C12_built_model_evaluates.
